@@ -255,7 +255,8 @@ def body_bytes(kind, idx):
     return b'<html>hello body %d</html>\n' % idx
 
 
-SHAPES = ('canon', 'nospace', 'lf', 'folded', 'empty', 'long', 'wide', 'noreason', 'foldedblank', 'nocolon', 'hibyte', 'huge', 'tabfold')
+SHAPES = ('canon', 'nospace', 'lf', 'folded', 'empty', 'long', 'wide', 'noreason', 'foldedblank', 'nocolon', 'hibyte', 'huge', 'tabfold',
+          'ctnosemi', 'ctspace', 'ctodd')
 
 
 def response_wire(shape, body, idx):
@@ -299,6 +300,19 @@ def response_wire(shape, body, idx):
         pad = b''.join(b'X-Pad-%04d: %s\r\n' % (i, b'q' * 80) for i in range(760))
         h = b'HTTP/1.1 200 OK\r\n' + pad + b'Content-Type: video/mp4\r\nContent-Length: %d\r\n\r\n' % n
         return h, body, 200, 'video/mp4'
+    if shape == 'ctnosemi':
+        # the parameter follows the media type without a semicolon: the media type is still one token without blanks
+        h = b'HTTP/1.1 200 OK\r\nContent-Type: text/html charset=utf-8\r\nContent-Length: %d\r\n\r\n' % n
+        return h, body, 200, 'text/html'
+    if shape == 'ctspace':
+        # white space between the field name and the colon (a recipient removes it, RFC 7230 3.2.4)
+        h = b'HTTP/1.1 200 OK\r\nContent-Type : text/css\r\nContent-Length\t: %d\r\n\r\n' % n
+        return h, body, 200, 'text/css'
+    if shape == 'ctodd':
+        # media types with '+' and '.', a quoted parameter with blanks, folded
+        h = (b'HTTP/1.1 200 OK\r\nContent-Type: application/vnd.x.y+xml;\r\n  title="a b c" ; q=1\r\n'
+             b'Content-Length: %d\r\n\r\n' % n)
+        return h, body, 200, 'application/vnd.x.y+xml'
     if shape == 'empty':
         return b'HTTP/1.1 200 OK\r\n\r\n', body, 200, '-'
     if shape == 'long':
